@@ -866,6 +866,18 @@ def _check_real_wrappers(vs, stats):
         return le.transform(X), ref.predict(X)
     cases.append(("SkBaseTransformLearner.transform:not-method-output", "learner[method=bound method of another instance]",
                   bound_other))
+    # twelve members, a nested key of member 10 set before fit: member i of the concatenation is member i as configured
+    from sklearn.linear_model import Ridge
+
+    def twelve():
+        st = SkBaseTransformStacking([Ridge(alpha=1.0) for _ in range(12)], method="predict")
+        st.set_params(**{"models_10__model__alpha": 500.0})
+        st.fit(X, 3.0 * yc + X[:, 0])
+        want = numpy.column_stack([Ridge(alpha=500.0 if i == 10 else 1.0).fit(X, 3.0 * yc + X[:, 0]).predict(X)
+                                   for i in range(12)])
+        return st.transform(X), want
+    cases.append(("SkBaseTransformStacking.transform:not-concatenation", "stacking[12 members, models_10__model__alpha set]",
+                  twelve))
     learner_case("learner[OneHotEncoder sparse output]", OneHotEncoder, "transform", X)
     learner_case("learner[MaxAbsScaler on sparse rows]", MaxAbsScaler, "transform", scipy.sparse.csr_matrix(X))
     learner_case("learner[StandardScaler]", StandardScaler, "transform", X)
